@@ -67,6 +67,9 @@ def syncLine (s : SyncSt) (obj op arg : String) : SyncSt × String :=
   match obj, op, parseInt arg with
   | "c", "set", some n => let r := s.c.set n; ({ s with c := r.1 }, s!"{r.2}")
   | "c", "upd", some d => let r := s.c.update d; ({ s with c := r.1 }, s!"{r.2}")
+  | "c", "inc", _ => let r := s.c.update 1; ({ s with c := r.1 }, s!"{r.2}")        -- `Increase()` = `Update(1)`
+  | "c", "dec", _ => let r := s.c.update (-1); ({ s with c := r.1 }, s!"{r.2}")     -- `Decrease()` = `Update(-1)`
+  | "q", "signal", _ => (s, "ok")                                                   -- `SignalShutdown()`: a broadcast only
   | "c", "get", _ => (s, s!"{s.c.value}")
   | "c", "sub", _ => let r := s.c.subscribe; ({ s with c := r.1 }, s!"{r.2}")
   | "c", "sub0", _ => (s, "ok")          -- Subscribe() without callbacks: no id is consumed
